@@ -278,6 +278,62 @@ def pair_case(ctx: Ctx, stream: str, i: int) -> None:
         ctx.case(f'pair:{label}:{sx(esx)}', True, sample={'pair': label, 'shape': shape, 'result': type(red).__name__})
 
 
+def movepair_case(ctx: Ctx, stream: str, i: int) -> None:
+    """two adjacent move-axis operators over pytrees whose leaves have different ranks (generator of C01's stream
+    `moveaxis`): the pair may only be cancelled when it leaves EVERY leaf unchanged; whatever reduce() returns acts on
+    every leaf as the two numpy.moveaxis calls in a row"""
+    import c01
+    from furax._base.core import IdentityOperator
+    from encode import Encoder, first_diff, sx
+    rng = ctx.rng(stream, i)
+    st_, built = safe(c01.moveaxis_expr, rng)
+    if st_ != 'ok':
+        ctx.count('movepair:construction-' + st_)
+        return
+    e, info = built
+    enc = Encoder()
+    st_e, esx = safe(enc.op, e)
+    if st_e != 'ok':
+        # an axis outside one of the leaves: the operator exists but has no output structure (numpy refuses it too)
+        ctx.count('movepair:no-out-structure')
+        return
+    enc.freeze()
+    cfg = {'planted': info['planted'], 'expr': sx(esx)[:1500]}
+    st, red = safe(e.reduce)
+    if st != 'ok':
+        ctx.fail(stream, i, f'pair-reduce-raises:{st}', str(red)[:150], cfg)
+        return
+    def reference():
+        x = gen.random_input(rng, e.in_structure())
+        want = x
+        for o in reversed(e.operands):
+            if type(o).__name__ == 'MoveAxisOperator':
+                want = jax.tree.map(lambda leaf, o=o: jnp.asarray(np.moveaxis(np.asarray(leaf), o.source, o.destination)), want)
+            else:
+                want = o.mv(want)
+        return x, want
+    st_ref, xw = safe(reference)
+    if st_ref != 'ok':
+        # the specification does not apply to every leaf (numpy refuses it too): nothing to compare
+        ctx.count('movepair:numpy-rejects')
+        return
+    x, want = xw
+    st, got = safe(red.mv, x)
+    ok = st == 'ok' and jax.tree.structure(got) == jax.tree.structure(want) and \
+        all(a.shape == b.shape and np.allclose(np.asarray(a), np.asarray(b), rtol=1e-5)
+            for a, b in zip(jax.tree.leaves(got), jax.tree.leaves(want)))
+    if not ok:
+        ctx.fail(stream, i, 'movepair-reduced-not-numpy', f'reduce() of two move-axis operators does not act on every leaf as '
+                 f'the two numpy.moveaxis calls ({st})', cfg)
+    if isinstance(red, IdentityOperator) and not gen.same_structure(e.in_structure(), e.out_structure()):
+        ctx.fail(stream, i, 'pair-identity-changes-shape:moveaxis', 'reduced to the identity although a leaf changes shape', cfg)
+    rep = ctx.model.ask(['reduce', esx])
+    if rep[0] != 'ok' or first_diff(rep[1], enc.op(red)) is not None:
+        ctx.disagree(stream, i, f'move-axis pair: reduce() form differs from the model: {sx(rep)[:160]}', cfg)
+    ctx.count('movepair:' + info['planted'][0])
+    ctx.case(f'movepair:{sx(esx)}', True, sample={'movepair': info['planted']})
+
+
 def run(ctx: Ctx) -> None:
     n = 150 if ctx.tier == 'quick' else 3500
     for i in range(n):
@@ -292,3 +348,6 @@ def run(ctx: Ctx) -> None:
     for i in range(60 if ctx.tier == 'quick' else 1500):
         if ctx.want('pair', i):
             pair_case(ctx, 'pair', i)
+    for i in range(60 if ctx.tier == 'quick' else 1500):
+        if ctx.want('movepair', i):
+            movepair_case(ctx, 'movepair', i)
